@@ -171,8 +171,8 @@ var handWritten = []string{
 }
 
 // deepNesting builds sources whose nesting depth is d.
-func deepNesting(r *kit.Rand, d int) (string, string) {
-	switch r.Pick(2, 2, 2, 2, 1, 1, 1, 1, 1) {
+func deepNesting(shape, d int) (string, string) {
+	switch shape % 9 {
 	case 0:
 		return "type T " + strings.Repeat("[]", d) + "int\n", "slice-depth"
 	case 1:
